@@ -200,10 +200,14 @@ def _values_from_model(model, P):
     return model_values(P, model)
 
 
-def abstract_divisions(formulas):
+def abstract_divisions(formulas, unit_terms=None):
     """Cut-point abstraction: every fp.div sub-term is replaced by a fresh unconstrained float64 constant (the same constant
-    for the same term).  The abstracted conjunction is weaker than the original, so 'unsat' carries over; 'sat' does not."""
+    for the same term); every product u*y with u known to lie in [0,1] (a rand() draw or 1 - draw) is replaced by a fresh p
+    constrained only by the facts  not NaN(y) => not NaN(p)  and  |p| <= |y|  (rounding is monotone and |y| is representable,
+    so |fl(u*y)| <= |y|).  The abstracted conjunction is weaker than the original, so 'unsat' carries over; 'sat' does not."""
     seen, divs = set(), {}
+    unit_terms = unit_terms or {}
+    muls = {}
 
     def walk(t):
         stack = [t]
@@ -216,15 +220,29 @@ def abstract_divisions(formulas):
             if z3.is_app(x):
                 if x.decl().kind() == z3.Z3_OP_FPA_DIV:
                     divs[i] = x
+                elif x.decl().kind() == z3.Z3_OP_FPA_MUL and unit_terms:
+                    _, p, q = x.children()
+                    if p.get_id() in unit_terms:
+                        muls[i] = (x, q)
+                    elif q.get_id() in unit_terms:
+                        muls[i] = (x, p)
                 stack.extend(x.children())
 
     for f in formulas:
         walk(f)
-    if not divs:
+    if not divs and not muls:
         return None
     # innermost-first is not needed: substitute replaces the outermost occurrence, which removes nested ones with it
     pairs = [(t, z3.FP(f"absdiv!{i}", core.F64)) for i, t in divs.items()]
-    return [z3.substitute(f, *pairs) for f in formulas]
+    facts = []
+    for i, (t, other) in muls.items():
+        p = z3.FP(f"absmul!{i}", core.F64)
+        pairs.append((t, p))
+        facts.append(z3.Implies(z3.Not(z3.fpIsNaN(other)), z3.And(z3.Not(z3.fpIsNaN(p)), z3.fpLEQ(z3.fpAbs(p), z3.fpAbs(other)))))
+    out = [z3.substitute(f, *pairs) for f in formulas]
+    # the facts talk about the (possibly also abstracted) other operands
+    out += [z3.substitute(f, *pairs) for f in facts]
+    return out
 
 
 def check(formulas, timeout_s, portfolio, P, want_z3_model=False):
@@ -237,7 +255,7 @@ def check(formulas, timeout_s, portfolio, P, want_z3_model=False):
             return st, model, info
         t0 = time.time()
     if portfolio and not want_z3_model and getattr(P.ctx, "abstract_div", True):
-        af = abstract_divisions(formulas)
+        af = abstract_divisions(formulas, getattr(P.ctx, "unit_terms", None))
         if af is not None:
             st, _, info = _portfolio(af, min(timeout_s, max(20.0, timeout_s / 3)), P, t0, want_model=False)
             if st == "unsat":
